@@ -19,6 +19,7 @@
     "output time"                                                 section_roundtrip_TIMES
     "block", "connection"                                         section_roundtrip_ELEME, section_roundtrip_CONNE
                                                                  (main and extra-precision tables)
+    "generator (with its time/rate/enthalpy tables)"              section_roundtrip_GENER (main and extra-precision tables)
     "initial condition"                                           section_roundtrip_INCON
     "history request"                                             section_roundtrip_FOFT_GOFT, section_roundtrip_COFT
     "block-name (A3,I2) fix/unfix on the way in and out"          block_name_cycle
@@ -28,7 +29,7 @@
     "both simulator flavours"                                     flavour_param_spec
     tie to the tables and dispatch of /repo                       all_records_wf, dispatch_as_modelled
   Not proved as theorems (modelled and checked by the correspondence and the oracle only): the round trips of
-  ROCKS, PARAM, GENER, RPCAP, LINEQ/SOLVR/MULTI, SELEC, DIFFU, INDOM, SHORT, MESHM at section level, the
+  ROCKS, PARAM, RPCAP, LINEQ/SOLVR/MULTI, SELEC, DIFFU, INDOM, SHORT, MESHM at section level, the
   composition of all section round trips into `read (write d) = canon d` for whole objects, the binary
   MESHA/MESHB pair, and idempotence of `canonV` on reals (C02's domain).
 -/
@@ -158,6 +159,19 @@ theorem section_roundtrip_CONNE (T : Tabs) (hT : T = mainTabs ∨ T = xpTabs) (b
               (fieldAt T c!"connections" 8) (fieldAt T c!"connections" 9) (fieldAt T c!"connections" 10))).foldl addConn [], rest) :=
   Proofs.T2.section_roundtrip_CONNE (conn_shape T hT).1 (conn_shape T hT).2 blocks cs hc hw rest
 
+/-- **section_roundtrip_GENER** for the main and the extra-precision table of the current /repo: header lines and
+    the time / rate / enthalpy tables of table generators (2, 3, 4, 5, …, 12, … times: every 4-per-line boundary;
+    with the enthalpy column exactly when ITAB is set) -/
+theorem section_roundtrip_GENER (T : Tabs) (hT : T = mainTabs ∨ T = xpTabs) (gs : List Gener)
+    (hg : ∀ g ∈ gs, GoodGener (fun i => fieldAt T c!"generator" i) (fieldAt T c!"generation_times" 0)
+            (fieldAt T c!"generation_rates" 0) (fieldAt T c!"generation_enthalpy" 0) g)
+    (hw : ∀ g ∈ gs, ∃ ls, writeGener T g = .ok ls) (rest : List Str) :
+    readGeners .default T ((gs.map (fun g => match writeGener T g with | .ok ls => ls | .error _ => [])).flatten ++ nl [] :: rest) =
+      .ok (gs.map (canonGener (fun i => fieldAt T c!"generator" i) (fieldAt T c!"generation_times" 0)
+            (fieldAt T c!"generation_rates" 0) (fieldAt T c!"generation_enthalpy" 0)), rest) :=
+  let h := gener_shape T hT
+  Proofs.T2.section_roundtrip_GENER h.1 h.2.1 h.2.2.1 h.2.2.2.1 h.2.2.2.2 gs hg hw rest
+
 /-- **section_roundtrip_INCON** (current main table) -/
 theorem section_roundtrip_INCON (es : List Incon) (hn : ∀ e ∈ es, GoodName e.name)
     (hw : ∀ e ∈ es, ∃ ls, writeIncon mainTabs e = .ok ls) (d0 : List Incon) (rest : List Str) :
@@ -267,6 +281,22 @@ example : GoodConn [{ exBlock with name := c!"abc 5" }, { exBlock with name := c
 example : ∃ l, writeBlock mainTabs exBlock = .ok l := by
   refine ⟨(match writeBlock mainTabs exBlock with | .ok l => l | .error _ => []), ?_⟩
   decide +kernel
+-- a table generator with five times (two lines of four) and an enthalpy column
+def exGener : Gener := { block := c!"abc05", name := c!"wel 1", nseq := .none, nadd := .none, nads := .none, ltab := .int 5,
+                         type := .str c!"MASS", itab := .str c!"E", gx := .none, ex := .none, hg := .none, fg := .none,
+                         time := [.real 0, .real 1, .real 2, .real 3, .real (9/2)], rate := [.real (-1), .real (-2), .real (-3), .real (-4), .real (-5)],
+                         enthalpy := [.real 100000, .real 100000, .real 100000, .real 100000, .real 100000] }
+example : tableLen exGener = 5 := by decide +kernel
+example : ∃ ls, writeGener mainTabs exGener = .ok ls ∧ ls.length = 7 := by
+  refine ⟨(match writeGener mainTabs exGener with | .ok l => l | .error _ => []), ?_, ?_⟩ <;> decide +kernel
+example : GoodGener (fun i => fieldAt mainTabs c!"generator" i) (fieldAt mainTabs c!"generation_times" 0)
+    (fieldAt mainTabs c!"generation_rates" 0) (fieldAt mainTabs c!"generation_enthalpy" 0) exGener :=
+  { block := ⟨rfl, by decide +kernel, by decide +kernel⟩, nameLen := rfl, nameNl := by decide +kernel,
+    ltabInt := ⟨5, rfl⟩, ltabKeep := by decide +kernel, typeKeep := by decide +kernel, itabStr := ⟨_, rfl⟩,
+    itabKeep := by decide +kernel, timeLen := by decide +kernel, rateLen := by decide +kernel,
+    enthLen := by decide +kernel,
+    enthItab := by intro _ s h; cases h; decide +kernel,
+    present := by decide +kernel, presentR := by decide +kernel, presentE := by decide +kernel }
 -- visible history items
 example : Visible c!"abc12" := ⟨rfl, by decide +kernel⟩
 -- a one-section chain for `sections_preserved`: a file `START / ENDCY`
